@@ -20,7 +20,7 @@ RULE = ("all initial configurations (EQUIPMENT_OFFLINE, ATTEMPT_ONLINE, HOST_OFF
         "(S1F2, S1F0, none) x event reports enabled or not, each with random histories (<= 25 events, thorough <= 80) over "
         "{switch_online, switch_offline, switch_online_local, switch_online_remote, S1F15, S1F17, S1F3[1002], S1F17 and S1F3 "
         "while the equipment's own S1F1 is outstanding (ATTEMPT ON-LINE)}; distinct by "
-        "(configuration, event sequence); non-trivial when at least two model transitions were taken")
+        "(configuration, event sequence); non-trivial when at least two model transitions were taken; plus: in half of the runs with event reports a further report is linked to the already enabled events")
 ASSUMPTIONS = ["after a failed attempt-online the model accepts EQUIPMENT OFF-LINE or HOST OFF-LINE (E30 lets the equipment choose)",
                "S1F15 received while already OFF-LINE: S1F16(0) or S1F0", "an operator request with no transition in the E30 table may "
                "raise or be a silent no-op: only 'state unchanged, nothing emitted' is checked; a LOCAL/REMOTE switch made while "
